@@ -8,6 +8,7 @@ pub mod dec;
 pub mod obj;
 pub mod pda;
 pub mod print;
+pub mod pump;
 pub mod unord;
 pub mod value;
 
